@@ -23,6 +23,12 @@ type half struct {
 	buf    []byte
 	closed bool // writer closed: EOF after the buffer drains
 	reset  bool // connection reset: both directions fail immediately
+	// readerGone: the reading end was closed; like TCP answering with RST, a
+	// later write into this half fails
+	readerGone bool
+	// limit > 0: socket buffer size, a writer blocks while the buffer is full
+	limit int
+	wdl   time.Time // write deadline of the writing end (for blocked writes)
 }
 
 func newHalf() *half {
@@ -101,6 +107,9 @@ func (c *Conn) Read(p []byte) (int, error) {
 			n = copy(p[:n], h.buf)
 			h.buf = h.buf[n:]
 			c.BytesIn += n
+			if h.limit > 0 {
+				h.cond.Broadcast() // room for a blocked writer
+			}
 			return n, nil
 		}
 		if h.closed {
@@ -135,17 +144,45 @@ func (c *Conn) Write(p []byte) (int, error) {
 	if h.reset {
 		return 0, c.opErr("write", syscall.ECONNRESET)
 	}
-	if h.closed {
+	if h.closed || h.readerGone {
 		return 0, c.opErr("write", syscall.EPIPE)
 	}
 	if c.net != nil && c.net.blackhole[c.ID] {
 		// swallowed: the peer never sees it
 		return len(p), nil
 	}
-	h.buf = append(h.buf, p...)
-	c.BytesOut += len(p)
-	h.cond.Broadcast()
-	return len(p), nil
+	if h.limit <= 0 {
+		h.buf = append(h.buf, p...)
+		c.BytesOut += len(p)
+		h.cond.Broadcast()
+		return len(p), nil
+	}
+	// bounded socket buffer: block while it is full
+	written := 0
+	for written < len(p) {
+		if h.reset {
+			return written, c.opErr("write", syscall.ECONNRESET)
+		}
+		if h.closed || h.readerGone {
+			return written, c.opErr("write", syscall.EPIPE)
+		}
+		if room := h.limit - len(h.buf); room > 0 {
+			n := len(p) - written
+			if n > room {
+				n = room
+			}
+			h.buf = append(h.buf, p[written:written+n]...)
+			written += n
+			c.BytesOut += n
+			h.cond.Broadcast()
+			continue
+		}
+		if !h.wdl.IsZero() && !time.Now().Before(h.wdl) {
+			return written, c.opErr("write", timeoutErr{})
+		}
+		h.cond.Wait()
+	}
+	return written, nil
 }
 
 // Close closes this end: the peer reads EOF after draining.
@@ -167,6 +204,7 @@ func (c *Conn) Close() error {
 	c.wr.cond.Broadcast()
 	c.wr.mu.Unlock()
 	c.rd.mu.Lock()
+	c.rd.readerGone = true
 	c.rd.cond.Broadcast()
 	c.rd.mu.Unlock()
 	if s := simrt.Cur(); s != nil {
@@ -224,6 +262,22 @@ func (c *Conn) SetWriteDeadline(t time.Time) error {
 	c.mu.Lock()
 	c.wdl = t
 	c.mu.Unlock()
+	h := c.wr
+	h.mu.Lock()
+	h.wdl = t
+	limited := h.limit > 0
+	h.mu.Unlock()
+	if limited && !t.IsZero() {
+		d := time.Until(t)
+		if d < 0 {
+			d = 0
+		}
+		time.AfterFunc(d, func() {
+			h.mu.Lock()
+			h.cond.Broadcast()
+			h.mu.Unlock()
+		})
+	}
 	return nil
 }
 
@@ -282,6 +336,9 @@ type Net struct {
 	// ServerMaxRead limits the bytes one Read of a server-side connection
 	// end returns (fragmentation of the byte stream as seen by the server).
 	ServerMaxRead int
+	// SockBuf > 0 bounds the bytes in flight per direction: writers block
+	// while the peer does not read (0 = unbounded, writes never block).
+	SockBuf int
 }
 
 func New() *Net {
@@ -347,6 +404,7 @@ func (n *Net) Dial(ctx context.Context, from, addr string) (*Conn, error) {
 		return nil, &net.OpError{Op: "dial", Net: "tcp", Addr: tcpAddr(addr), Err: syscall.ECONNREFUSED}
 	}
 	a, b := newHalf(), newHalf()
+	a.limit, b.limit = n.SockBuf, n.SockBuf
 	cl := &Conn{net: n, ID: fmt.Sprintf("c%d>", id), rd: a, wr: b, local: tcpAddr(from), remote: l.addr}
 	sv := &Conn{net: n, ID: fmt.Sprintf("c%d<", id), rd: b, wr: a, local: l.addr, remote: tcpAddr(from), AdoptAs: fmt.Sprintf("srvconn%d", id), MaxRead: n.ServerMaxRead}
 	n.mu.Lock()
